@@ -32,7 +32,9 @@ import (
 	"github.com/nuts-foundation/nuts-node/auth/oauth"
 	"github.com/nuts-foundation/nuts-node/crypto/dpop"
 	"github.com/nuts-foundation/nuts-node/storage"
+	"github.com/nuts-foundation/nuts-node/vcr/pe"
 	"github.com/nuts-foundation/nuts-node/vcr/signature/proof"
+	"github.com/nuts-foundation/nuts-node/vcr/test"
 	"go.uber.org/mock/gomock"
 )
 
@@ -93,6 +95,64 @@ func c05SignedDPoP(id string) c05DPoP {
 	d := c05DPoP{proof: p.String(), thumbprint: base64.RawURLEncoding.EncodeToString(tp)}
 	c05DPoPCache[id] = d
 	return d
+}
+
+func c05ClientID(want string) string {
+	switch want {
+	case "clientA":
+		return "https://example.com/oauth2/holder"
+	case "clientA/":
+		return "https://example.com/oauth2/holder/"
+	}
+	return "https://attacker.example.com/oauth2/" + want
+}
+
+func c05Scope(post bool) string {
+	if post {
+		return "example-scope"
+	}
+	return "other-scope example-scope"
+}
+
+// fixtures for the s2s token request (as TestWrapper_handleS2SAccessTokenRequest builds them)
+var c05S2S struct {
+	t              *testing.T
+	submissionJSON string
+	mapping        pe.WalletOwnerMapping
+	credential     vc.VerifiableCredential
+	presentations  map[string]vc.VerifiablePresentation
+}
+
+func c05S2SInit(t *testing.T, tc *testCtx) {
+	var definition pe.PresentationDefinition
+	if err := json.Unmarshal([]byte(`{"format":{"ldp_vc":{"proof_type":["JsonWebSignature2020"]}},"input_descriptors":[{"id":"1","constraints":{"fields":[{"path":["$.type"],"filter":{"type":"string","const":"NutsOrganizationCredential"}}]}}]}`), &definition); err != nil {
+		t.Fatal(err)
+	}
+	c05S2S.t = t
+	c05S2S.mapping = pe.WalletOwnerMapping{pe.WalletOwnerOrganization: definition}
+	c05S2S.submissionJSON = `{"id":"","definition_id":"","descriptor_map":[{"id":"1","path":"$.verifiableCredential","format":"ldp_vc"}]}`
+	c05S2S.credential = test.ValidNutsOrganizationCredential(t)
+	c05S2S.presentations = map[string]vc.VerifiablePresentation{}
+	tc.policy.EXPECT().PresentationDefinitions(gomock.Any(), gomock.Any()).Return(c05S2S.mapping, nil).AnyTimes()
+	tc.vcVerifier.EXPECT().VerifyVP(gomock.Any(), true, true, gomock.Any()).DoAndReturn(
+		func(vp vc.VerifiablePresentation, _ bool, _ bool, _ *time.Time) ([]vc.VerifiableCredential, error) {
+			return vp.VerifiableCredential, nil
+		}).AnyTimes()
+}
+
+// one signed-looking JSON-LD presentation per nonce (the signature check is the mocked verifier's)
+func c05S2SPresentation(nonce string) vc.VerifiablePresentation {
+	if vp, ok := c05S2S.presentations[nonce]; ok {
+		return vp
+	}
+	subjectDID, _ := c05S2S.credential.SubjectDID()
+	vp := test.CreateJSONLDPresentation(c05S2S.t, *subjectDID, test.LDProofVisitor(func(p *proof.LDProof) {
+		p.Domain = &issuerClientID
+		n := nonce
+		p.Nonce = &n
+	}), c05S2S.credential)
+	c05S2S.presentations[nonce] = vp
+	return vp
 }
 
 func c05IamLevel(base *Wrapper) storage.VerifC05Level {
@@ -167,8 +227,10 @@ func c05IamLevel(base *Wrapper) storage.VerifC05Level {
 						"invalid nonce/state": "mismatch"})
 				})
 			case "s2s":
+				// the whole vp_token-bearer token request; client_id and scope are request parameters that the signature of
+				// the presentation does not cover: Want/Post select variants of them
 				fns = append(fns, func() string {
-					err := w.validateS2SPresentationNonce(c05LDPresentation("nonce", r.ID))
+					_, err := w.handleS2SAccessTokenRequest(httpCtx, c05ClientID(r.Want), issuerSubjectID, c05Scope(r.Post), c05S2S.submissionJSON, c05S2SPresentation(r.ID).Raw())
 					return c05Outcome(err, map[string]string{"presentation nonce has already been used": "used"})
 				})
 			case "jti":
@@ -217,6 +279,11 @@ func c05Variants(kind, id string) []storage.VerifC05Req {
 	case "vpnonce":
 		v = append(v, storage.VerifC05Req{Kind: kind, ID: id, Want: "clientB", Pre: true, Post: true},
 			storage.VerifC05Req{Kind: kind, ID: id, Want: "clientA", Pre: false, Post: true})
+	case "s2s":
+		// the same presentation with other unsigned request parameters: client_id (also only a trailing slash), scope
+		v = append(v, storage.VerifC05Req{Kind: kind, ID: id, Want: "clientB", Pre: true, Post: true},
+			storage.VerifC05Req{Kind: kind, ID: id, Want: "clientA/", Pre: true, Post: true},
+			storage.VerifC05Req{Kind: kind, ID: id, Want: "clientA", Pre: true, Post: false})
 	}
 	return v
 }
@@ -241,6 +308,7 @@ func TestVerifC05(t *testing.T) {
 
 	tc := newTestClient(t)
 	tc.jar.EXPECT().Sign(gomock.Any(), gomock.Any()).Return("signed-request-object", nil).AnyTimes()
+	c05S2SInit(t, tc)
 	level := c05IamLevel(tc.client)
 
 	if rp := os.Getenv("VERIF_REPLAY"); rp != "" {
@@ -388,9 +456,14 @@ func c05Window(w *storage.VerifC05Writer, base *Wrapper, validity, skew, first, 
 	wr := *base
 	wr.storageEngine = c05Engine{Engine: base.storageEngine, db: b.DB}
 	table := map[string]string{"presentation nonce has already been used": "used"}
-	n1 := c05Outcome(wr.validateS2SPresentationNonce(*vp), table)
+	httpCtx := context.WithValue(context.Background(), httpRequestContextKey{}, &http.Request{Header: http.Header{}})
+	present := func(client string) string {
+		_, err := wr.handleS2SAccessTokenRequest(httpCtx, c05ClientID(client), issuerSubjectID, c05Scope(true), c05S2S.submissionJSON, c05S2SPresentation(nonce).Raw())
+		return c05Outcome(err, table)
+	}
+	n1 := present("clientA")
 	b.Advance(time.Duration(replay-first) * time.Second)
-	n2 := c05Outcome(wr.validateS2SPresentationNonce(*vp), table)
+	n2 := present([]string{"clientA", "clientB", "clientA/"}[(first+replay)%3])
 	w.Raw(map[string]interface{}{"op": "window", "validity": validity, "skew": skew, "first": first, "replay": replay},
 		fmt.Sprintf("window maxvalidity=%s accept1=%v accept2=%v nonce1=%s nonce2=%s", maxValidity, a1, a2, n1, n2))
 }
